@@ -66,20 +66,43 @@ func hashClass(h uint32) string {
 // nothing written -> emptyVal; exactly 4 bytes -> those bytes big-endian; anything else -> FNV-1a
 // of the bytes (so a stale, un-Reset buffer shows up as a different hash).
 type fakeHash struct {
-	buf      []byte
+	n        int     // bytes written since Reset
+	first    [4]byte // the first four of them
+	run      uint32  // FNV-1a of all of them (streaming: constant memory even if Reset is never called)
 	emptyVal uint32
 }
 
-func (f *fakeHash) Write(p []byte) (int, error) { f.buf = append(f.buf, p...); return len(p), nil }
-func (f *fakeHash) Reset()                      { f.buf = f.buf[:0] }
-func (f *fakeHash) Size() int                   { return 4 }
-func (f *fakeHash) BlockSize() int              { return 1 }
+func (f *fakeHash) Write(p []byte) (int, error) {
+	if f.n == 0 {
+		f.run = fnvOffset32
+	}
+	for _, c := range p {
+		if f.n < 4 {
+			f.first[f.n] = c
+		}
+		f.run = fnvStep(f.run, c)
+		f.n++
+	}
+	return len(p), nil
+}
+func (f *fakeHash) Reset()         { f.n = 0 }
+func (f *fakeHash) Size() int      { return 4 }
+func (f *fakeHash) BlockSize() int { return 1 }
 func (f *fakeHash) Sum(b []byte) []byte {
 	v := f.Sum32()
 	return append(b, byte(v>>24), byte(v>>16), byte(v>>8), byte(v))
 }
-func (f *fakeHash) Sum32() uint32 { return fakeHashOf(f.buf, f.emptyVal) }
+func (f *fakeHash) Sum32() uint32 {
+	switch f.n {
+	case 0:
+		return f.emptyVal
+	case 4:
+		return binary.BigEndian.Uint32(f.first[:])
+	}
+	return f.run
+}
 
+// fakeHashOf is the same function written on a whole key (the model's view).
 func fakeHashOf(key []byte, emptyVal uint32) uint32 {
 	switch len(key) {
 	case 0:
